@@ -94,12 +94,17 @@ R.contract(
     raises="none",
     loops={0: {"inv": ["s == sumsq(deltas, _i)", "s >= 0"]}},
     locals={"s": "float"},
+    nonlinear=True,   # this function's own obligations need true real multiplication/division
 )
 # sumsq(B, i) == t*t*sumsq(A, i) whenever B is A scaled by t (proved by induction in lemma 'l2_scaling')
 R.ghostfun("lemma_l2_scaling", ["B", "A", "t"],
            requires=["len(A) == len(B)", "forall(j, 0 <= j < len(A), B[j].delta == A[j].delta * t)"],
            ensures=["forall(i, 0 <= i <= len(A), sumsq(B, i) == t * t * sumsq(A, i))"])
 R.ghostfun("lemma_scale_sq", ["c", "r", "s", "t"], requires=["r * r == s", "r != 0", "t == c / r"], ensures=["t * t * s == c * c"])
+
+
+R.ghostfun("lemma_scale_shrinks", ["t"], requires=["0 < t", "t <= 1"],
+           ensures=["forall((x, 'float'), True, absr(x * t) <= absr(x))"])
 
 
 def _l2_lemma():
@@ -114,7 +119,10 @@ def _l2_lemma():
     defs = [sA(0) == 0, sB(0) == 0, 0 <= i, i < n,
             sA(i + 1) == sA(i) + dA(i) * dA(i), sB(i + 1) == sB(i) + dB(i) * dB(i), dB(i) == dA(i) * t]
     c, r, s2, t2 = z3.Reals("c r s2 t2")
-    return [("scale_sq", [r * r == s2, r != 0, t2 == c / r], t2 * t2 * s2 == c * c),
+    x = z3.Real("x")
+    ab = lambda e: z3.If(e >= 0, e, -e)
+    return [("scale_shrinks", [0 < t, t <= 1], ab(x * t) <= ab(x)),
+            ("scale_sq", [r * r == s2, r != 0, t2 == c / r], t2 * t2 * s2 == c * c),
             ("base", [sA(0) == 0, sB(0) == 0], sB(0) == t * t * sA(0)),
             ("step", defs + [sB(i) == t * t * sA(i)], sB(i + 1) == t * t * sA(i + 1))]
 
@@ -266,7 +274,7 @@ R.contract(
                     "forall(i, 0 <= i < len(clamped), is_none(clamped[i].op_idx) or not (some(clamped[i].op_idx) in blocked_ops))",
                     "forall(i, 0 <= i < len(clamped), clamped[i].delta == clip(gsum(plan.deltas, len(plan.deltas), ckey_of(clamped[i])), "
                     "  ctx.config.t4['novelty_cap_per_node']) and absr(clamped[i].delta) <= ctx.config.t4['novelty_cap_per_node'])"],
-        "scaled": [INC % {"x": "scaled"}, PROPOSED % {"x": "scaled"}, "0 < scale and scale <= 1",
+        "scaled": ["ghost:lemma_scale_shrinks(scale)", INC % {"x": "scaled"}, PROPOSED % {"x": "scaled"}, "0 < scale and scale <= 1",
                    "forall(i, 0 <= i < len(scaled), is_none(scaled[i].op_idx) or not (some(scaled[i].op_idx) in blocked_ops))",
                    "forall(i, 0 <= i < len(scaled), scaled[i].delta == clip(gsum(plan.deltas, len(plan.deltas), ckey_of(scaled[i])), "
                    "  ctx.config.t4['novelty_cap_per_node']) * scale and absr(scaled[i].delta) <= ctx.config.t4['novelty_cap_per_node'])"],
